@@ -380,7 +380,27 @@ def concat(prog: Program, rep: Report):
                             den[2][0][2][0] == "var" and den[2][0][2][1] == pv))
                         num_ok = any(x == ("binop", "/", IDX, nparts) or x == ("binop", "//", IDX, nparts) for x in subterms(num)) \
                             or num in (("binop", "/", IDX, nparts), ("binop", "//", IDX, nparts))
-                        if not den_ok or not same_part:
+                        cached_tab = None
+                        if not den_ok and den[0] == "sub" and den[1][0] == "self" and den[1][1] != "datasets" and (
+                                den[2] == ("binop", "%", IDX, nparts) or (den[2][0] == "var" and den[2][1] == pv)):
+                            # modulus read from a per-part table kept on the instance: judged by the statement that builds the
+                            # table.  [len(d) for d in self.datasets] or adjacent differences of the cumulative sizes: the part
+                            # lengths.  A difference to a fixed element (sizes[0]): wrong from the third part on.  Else: open
+                            cached_tab = "open"
+                            for M_ in prog.by_relpath.values():
+                                for y_ in ast.walk(M_.tree if hasattr(M_, "tree") else ast.Module([], [])):
+                                    if isinstance(y_, ast.Assign) and len(y_.targets) == 1 and isinstance(y_.targets[0], ast.Attribute) \
+                                            and y_.targets[0].attr == den[1][1]:
+                                        comps_ = [c_ for c_ in ast.walk(y_.value) if isinstance(c_, ast.ListComp)]
+                                        for c_ in comps_:
+                                            e_ = c_.elt
+                                            if isinstance(e_, ast.BinOp) and isinstance(e_.op, ast.Sub) and isinstance(e_.right, ast.Subscript) \
+                                                    and isinstance(e_.right.slice, ast.Constant):
+                                                cached_tab = "fixed-element"
+                        if cached_tab == "open":
+                            unknown.append(f"the modulus is read from the table self.{den[1][1]}: whether it holds the part lengths "
+                                           f"is not decided")
+                        elif not den_ok or not same_part:
                             problems.append(f"balanced local index {show(lt)[:90]} is not reduced modulo the length of the part "
                                             f"that was selected (self.datasets[part])")
                         if not num_ok:
